@@ -378,6 +378,20 @@ def _decorate_tree(tree):
     return tree
 
 
+def _decorate_markers(tree):
+    """comments that LOOK like `sqlglot.meta` directives on nodes whose meta says something else: a marker comment that
+    was assigned without being interpreted (what the parser does when it moves comments), and one whose flag was edited
+    afterwards.  A round trip must carry comments and meta as they are, not re-derive one from the other."""
+    for p, (n, *_r) in enumerate(nodes(tree)):
+        if p % 3 == 0:
+            n.comments = [" sqlglot.meta case_sensitive "]
+        elif p % 3 == 1:
+            n.add_comments([" sqlglot.meta replace=false, k=v "])
+            n.meta["replace"] = True
+            n.meta.pop("k", None)
+    return tree
+
+
 def survey(tree, acc):
     for n, *_r in nodes(tree):
         for k, v in n.args.items():
@@ -406,6 +420,7 @@ def work_corpus(item):
     for tree in trees:
         variants = [("parsed", lambda: tree.copy())]
         variants.append(("decorated", lambda: _decorate_tree(tree.copy())))
+        variants.append(("marker-comments", lambda: _decorate_markers(tree.copy())))
         variants.append(("annotated", lambda: annotate_types(_decorate_tree(tree.copy()), dialect=read or None)))
         variants.append(("qualified", lambda: qualify(tree.copy(), schema=SCHEMA, dialect=read or None)))
         variants.append(
@@ -434,9 +449,20 @@ def _work(item):
     return work_corpus(item[1:])
 
 
+# `sqlglot.meta` marker comments in the positions from which the parser moves comments to another node
+MARKER_STATEMENTS = [
+    "/* sqlglot.meta case_sensitive */ SELECT Foo FROM Bar",
+    "SELECT Foo /* sqlglot.meta case_sensitive */ AS B, Baz /* sqlglot.meta replace=false */ FROM Bar /* sqlglot.meta case_sensitive */",
+    "SELECT a FROM t /* sqlglot.meta x=1 */ JOIN u /* sqlglot.meta y */ ON t.a = u.a WHERE /* sqlglot.meta z */ a > 1",
+]
+
+
 def _plan(tier):
     ds = corpus.dialects()
     items = [("class", n) for n in expr_classes()]
+    for sql in MARKER_STATEMENTS:
+        items.append(("corpus", sql, "", DIALECTS8, True))
+        items.append(("corpus", sql, "snowflake", DIALECTS8, False))
     if tier == "quick":
         for sql in corpus.STATEMENTS:
             items.append(("corpus", sql, "", DIALECTS8, True))
